@@ -8,7 +8,7 @@ PROPS = {
     ]),
     "C17": dict(pkg="chain", level="exploration", stages=[
         direct("exhaustive", "TestC17Exhaustive"),
-        rapid("rapid", "TestC17", dict(shards=8, checks=1500), dict(shards=16, checks=40000, timeout=3000)),
+        rapid("rapid", "TestC17", dict(shards=16, checks=2500), dict(shards=16, checks=40000, timeout=3000)),
         rapid("chain", "TestC17Chain", dict(shards=8, checks=40), dict(shards=16, checks=1500, timeout=5000)),
         fuzz("fuzz", "FuzzC17Ops", 180),
     ]),
@@ -21,12 +21,12 @@ PROPS = {
 }
 
 PROPS["C02"] = dict(pkg="chain", level="exploration", stages=[
-    rapid("rapid", "TestC02", dict(shards=16, checks=120), dict(shards=16, checks=4000, timeout=7000)),
+    rapid("rapid", "TestC02", dict(shards=16, checks=200), dict(shards=16, checks=4000, timeout=7000)),
 ])
 
 PROPS["C03"] = dict(pkg="chain", level="fault_enumeration", stages=[
     direct("preoak", "TestC03PreOak"),
-    rapid("rapid", "TestC03", dict(shards=16, checks=50), dict(shards=16, checks=1200, timeout=7000)),
+    rapid("rapid", "TestC03", dict(shards=16, checks=100), dict(shards=16, checks=1200, timeout=7000)),
 ])
 
 PROPS["C19"] = dict(pkg="chain", level="exploration", stages=[
@@ -36,12 +36,12 @@ PROPS["C19"] = dict(pkg="chain", level="exploration", stages=[
 
 PROPS["C14"] = dict(pkg="chain", level="exploration", stages=[
     direct("diamond", "TestC14Diamond"),
-    rapid("rapid", "TestC14", dict(shards=16, checks=250), dict(shards=16, checks=8000, timeout=7000)),
+    rapid("rapid", "TestC14", dict(shards=16, checks=700), dict(shards=16, checks=8000, timeout=7000)),
 ])
 
 PROPS["C13"] = dict(pkg="chain", level="exploration", stages=[
     direct("distance", "TestC13Distance"),
-    rapid("rapid", "TestC13", dict(shards=16, checks=150), dict(shards=16, checks=5000, timeout=7000)),
+    rapid("rapid", "TestC13", dict(shards=16, checks=400), dict(shards=16, checks=5000, timeout=7000)),
 ])
 
 PROPS["C05"] = dict(pkg="chain", level="exploration", stages=[
@@ -51,7 +51,7 @@ PROPS["C05"] = dict(pkg="chain", level="exploration", stages=[
 
 PROPS["C04"] = dict(pkg="chain", level="exploration", stages=[
     direct("preoak", "TestC04PreOak"),
-    rapid("rapid", "TestC04", dict(shards=16, checks=120), dict(shards=16, checks=4000, timeout=7000)),
+    rapid("rapid", "TestC04", dict(shards=16, checks=200), dict(shards=16, checks=4000, timeout=7000)),
     rapid("concurrent", "TestC04Concurrent", dict(shards=8, checks=60), dict(shards=16, checks=400, timeout=7000)),
     rapid("concurrent-race", "TestC04Concurrent", dict(shards=8, checks=40), dict(shards=16, checks=150, timeout=7000), race=True, tiers=["thorough"]),
 ])
